@@ -720,6 +720,11 @@ def build_fn(ctx, unit, fs):
     edits += ensure_pub(sf, it, in_trait_impl)
     # drop leading doc comments: tokens don't include comments; text before first token is not copied
     start_off = toks[it.tok_lo].start
+    if fs.opts.get("rename_fn"):
+        # N12: alpha-renaming of an inherent method whose name collides with a trait method of the same type
+        edits.append(Edit(toks[q + 1].start, toks[q + 1].end, fs.opts["rename_fn"]))
+        ctx.fire("N12", sf, toks[q + 1].start, f"{toks[q + 1].text} -> {fs.opts['rename_fn']}")
+        fn_label = fs.opts["rename_fn"]
     # name the return value
     ret = fs.opts.get("ret", "r")
     k = q
@@ -826,6 +831,20 @@ def build_fn(ctx, unit, fs):
                 multi.append((toks[j].end, [Seg(f" {ls['iter']}:", ("ins", fn_label + f"/loop{ordn}", "iter-name", None))], 0))
         for where, arg, nth, text, popts in fs.proofs:
             label = f"proof:{where}:{arg}"
+            if where in ("before", "after") and popts.get("all"):
+                n_ = 1
+                raw = popts.get("raw")
+                body = text if raw else "proof {\n" + text + "\n}"
+                while True:
+                    try:
+                        s, e = find_anchor(sf, toks[it.body_open].end, toks[it.body_close].start, arg, n_, fs.path)
+                    except LostAnchor:
+                        if n_ == 1:
+                            raise
+                        break
+                    multi.append((s if where == "before" else e, [Seg("\n" + body + "\n", ("ins", fn_label, label + f"#{n_}", None))], 1))
+                    n_ += 1
+                continue
             if where in ("before", "after"):
                 s, e = find_anchor(sf, toks[it.body_open].end, toks[it.body_close].start, arg, nth, fs.path)
                 off = s if where == "before" else e
@@ -845,7 +864,18 @@ def build_fn(ctx, unit, fs):
             body = text if raw else "proof {\n" + text + "\n}"
             multi.append((off, [Seg("\n" + body + "\n", ("ins", fn_label, label, None))], 1))
         for rule, anchor, nth, ropts in fs.rewrites:
-            edits += site_rewrite(ctx, sf, it, rule, anchor, nth, ropts, fs.path)
+            if ropts.get("all"):
+                n_ = 1
+                while True:
+                    try:
+                        edits += site_rewrite(ctx, sf, it, rule, anchor, n_, ropts, fs.path)
+                    except LostAnchor:
+                        if n_ == 1:
+                            raise
+                        break
+                    n_ += 1
+            else:
+                edits += site_rewrite(ctx, sf, it, rule, anchor, nth, ropts, fs.path)
     if fs.opts.get("external_body") and has_body:
         # T5: assumed-contract function: the body is not read by Verus; it is elided so that rustc does not need
         # the items it mentions. Listed in the evidence as an assumed contract.
@@ -951,8 +981,15 @@ def site_rewrite(ctx, sf, it, rule, anchor, nth, ropts, what):
         call = ropts["call"].replace("~", " ")
         edits.append(Edit(s, end, call + ";"))
         ctx.fire("O1", sf, s, f"opaque statement -> {call}")
-    elif rule == "DROP_GENERIC":
-        pass
+    elif rule == "N12":
+        frm, to = ropts["from"], ropts["to"]
+        k = a
+        while k < b and toks[k].text != frm:
+            k += 1
+        if k >= b:
+            raise LostAnchor(f"{what}: N12 name {frm} not in anchor {anchor!r}")
+        edits.append(Edit(toks[k].start, toks[k].end, to))
+        ctx.fire("N12", sf, toks[k].start, f"{frm} -> {to}")
     else:
         raise UnitSyntaxError(f"unknown site rewrite {rule}")
     return edits
